@@ -8,12 +8,13 @@ Extracts from the CURRENT sources the bodies of
     Future<void>::Future()  ~Future()  join()  abort()  isAborting()  isFinished()  isAborted()  set()   enum Future<void>::State
     Future<A>::operator const A&()  ~Future()   (the other members of Future<A> must be plain forwards to the embedded Future<void>)
     Future<void>::proc<A> / Future<A>::proc<B>: the order of body call / result store / set() / delete
-and the decision arithmetic of ThreadPool::run (from `Atomic::increment(_pushedJobs)` on: the conditions of its if-chain)
+and the worker-count decision of ThreadPool::run (from `Atomic::increment(_pushedJobs)` on: counter arithmetic with 64-bit wrap-around and the
+decision tree obtained by symbolic execution of its statements; the effect statements stay opaque)
 (tokenizer + recursive-descent parser of the C++ subset these bodies are written in) and writes them as Lean definitions over
 the state types of lean/Nstd/Future/{Ring,Model}.lean into lean/Nstd/Generated/FutureBody.lean.
 lean/Nstd/Future/PropsGen.lean proves that the generated micro-step functions ARE the hand-written model steps
 (`ringStep`, `stepFrame … (.fSet/.fRst/.fRstLoad/.fWait/.join/.joinClr/.pSetRd/.pSetX/.pSig/.evResult/…)`, `Ring.init`, `mkPool`,
-the branch taken by `runRdTc/runClk2/runClk3`).
+the branch taken by `runRdTc` = the translated decision tree).
 NOT translated (hand translation, tied by the step-by-step replay only): the control skeleton of ThreadPool::run (push loop, spawn and
 retire branches under the mutex, purge of the context list), ThreadContext::proc (worker loop), ~ThreadPool, startProc, Signal.cpp.
 
@@ -30,7 +31,7 @@ Anything outside the understood subset is REFUSED (exception -> the check report
 calls, two shared accesses whose order is not fixed by a sequence point, a loop without a shared access, ...
 
 Semantics of the translation (assumptions, listed in the MANIFEST note):
-  usize / ssize                 -> Nat / Int (no wrap-around; `(ssize)(a - b)` is the Int difference)
+  usize (tickets, capacities)   -> Nat (no wrap-around);   usize / ssize in the counters of run() -> Int reduced mod 2^64 (`wrapU`, `toS`)
   Node* node = &_queue[e]       -> the slot index e;  `x & _capacityMask` -> `x &&& (cap - 1)`
   node->head (initially (usize)-1) -> Option Nat (none = never published); comparing with / storing a ticket wraps it in `some`
   node->data                    -> Option payload (none = raw memory); `new (&node->data) T(data)` stores `some data`;
@@ -178,7 +179,15 @@ class P:
             e = None if self.peek() == ";" else self.expr()
             self.eat(";")
             return ("return", e)
-        if tok in ("while", "do", "switch", "goto", "continue", "delete", "try", "throw"):
+        if tok == "while":
+            self.eat("while"); self.eat("(")
+            c = self.expr()
+            self.eat(")")
+            body = self.stmt()
+            if c in (("id", "true"), ("num", 1)):
+                return ("loop", None, body)
+            return ("loop", None, ("block", [("if", ("not", c), ("break",), ("block", [])), body]))
+        if tok in ("do", "switch", "goto", "continue", "delete", "try", "throw"):
             raise Refuse(f"{self.fn}: statement `{tok}` is outside the translated subset")
         text = self.text_upto_semicolon()
         if text is not None:
@@ -558,11 +567,41 @@ class Lower:
             return txt
         self.refuse(f"value of type {t} where {ty} is expected")
 
+    def is_model_call(self, e):
+        if e[0] != "call" or e[2]:
+            return None
+        if e[1][0] == "dot" and e[1][1][0] == "id":
+            return self.env.calls.get(e[1][1][1] + "." + e[1][2])
+        if e[1][0] == "id":
+            return self.env.calls.get(e[1][1])
+        return None
+
+    def has_model_call(self, e):
+        if not isinstance(e, tuple):
+            return False
+        if self.is_model_call(e):
+            return True
+        return any(self.has_model_call(x) for x in e[1:] if isinstance(x, tuple)) or (e[0] == "call" and any(self.has_model_call(a) for a in e[2]))
+
     def cond(self, c, lt, lf):
-        """branch on condition c (short-circuit operators of PURE operands only)"""
-        if self.count_shared(c) == 0 and not self.has_assign(c):
+        """branch on condition c; `&&`, `||`, `!` around shared accesses are lowered to branches (short-circuit evaluation)"""
+        if self.count_shared(c) == 0 and not self.has_assign(c) and not self.has_model_call(c):
             self.emit("br", self.cond_text(c), lt, lf)
             return
+        if c[0] == "bin" and c[1] in ("&&", "||"):
+            mid = self.label()
+            if c[1] == "||":
+                self.cond(c[2], lt, mid)
+            else:
+                self.cond(c[2], mid, lf)
+            self.emit("label", mid)
+            self.cond(c[3], lt, lf)
+            return
+        if c[0] == "not":
+            self.cond(c[1], lf, lt)
+            return
+        if self.has_model_call(c):
+            self.refuse("the result of a modelled call is used in a condition")
         r = self.rv(c)
         txt, ty = self.pure(r)
         self.emit("br", self.truth(txt, ty), lt, lf)
@@ -683,6 +722,25 @@ class Lower:
             elif e[0] == "call" and e[1][0] == "dot" and e[1][1][0] == "id" and (e[1][1][1] + "." + e[1][2]) in self.env.calls:
                 self.emit("call", self.env.calls[e[1][1][1] + "." + e[1][2]])
                 self.emit("ret", "callee")
+            elif e[0] == "bin" and e[1] in ("&&", "||") and (self.count_shared(e) or self.has_model_call(e)):
+                # return a || f();  ==  if (a) return true; return f();      return a && f();  ==  if (!a) return false; return f();
+                lyes, lno = self.label(), self.label()
+                last = e[3]
+                tail = self.is_model_call(last)
+                if tail:
+                    if e[1] == "||":
+                        self.cond(e[2], lyes, lno)
+                        self.emit("label", lyes); self.emit("ret", ("true", "bool"))
+                    else:
+                        self.cond(e[2], lno, lyes)
+                        self.emit("label", lyes); self.emit("ret", ("false", "bool"))
+                    self.emit("label", lno)
+                    self.emit("call", tail)
+                    self.emit("ret", "callee")
+                else:
+                    self.cond(e, lyes, lno)
+                    self.emit("label", lyes); self.emit("ret", ("true", "bool"))
+                    self.emit("label", lno); self.emit("ret", ("false", "bool"))
             elif self.count_shared(e):
                 r = self.rv(e)
                 self.emit("ret", self.pure(r))
@@ -961,7 +1019,11 @@ def gen_pool_ctor(src):
 
 
 def gen_run_decision(src):
-    """the counter arithmetic and the conditions of the if-chain of ThreadPool::run"""
+    """the worker-count decision of ThreadPool::run (everything after the push loop): the counter arithmetic with `usize`/`ssize`
+    wrap-around semantics and the decision TREE obtained by symbolic execution of the statements: branches on conditions over the
+    four locals / `_minThreads` / `_maxThreads`, the clock comparison, and the effects `clockStore` (`_idleResetTime = …ticks…`),
+    `spawn` (a statement that increments `_threadCount`), `retire` (one that decrements it).  The effect statements themselves (mutex,
+    purge of the context list, Thread::start, the terminate job) are opaque here: they are hand-translated (frames runSp*/runRet*/cleanAt)."""
     what = "ThreadPool::run"
     body, _ = extract(src, what, r"void\s+run\(\s*void\s*\(\s*\*\s*proc\s*\)\s*\(\s*void\s*\*\s*\)\s*,\s*void\s*\*\s*args\s*\)")
     k = body.find("Atomic::increment(_pushedJobs)")
@@ -971,104 +1033,232 @@ def gen_run_decision(src):
     toks = tokenize(body[k:])
     p = P(toks, what)
 
-    def opaque():
-        """skip one statement (branch bodies are hand-translated: frames runSp*/runRet*/cleanAt); returns its token text"""
-        i0 = p.i
-        if p.peek() == "{":
-            depth = 0
-            while True:
-                t = p.eat()
-                depth += t == "{"
-                depth -= t == "}"
-                if depth == 0:
-                    break
-        else:
-            p.skip_semicolon()
-        return "".join(p.t[i0:p.i])
+    def refuse(msg):
+        raise Refuse(f"{what}: {msg}")
 
-    low = Lower(what, Env("p", {}, {"_minThreads": ("minT", "nat"), "_maxThreads": ("maxT", "nat")}, {}, {}))
-    # usize pushedJobs = Atomic::increment(_pushedJobs);  ssize busy = (ssize)(pushedJobs - _processedJobs);  usize tc = _threadCount;  ssize idle = (ssize)tc - busy;
-    d = [p.stmt() for _ in range(4)]
-    for s in d:
-        if s[0] != "decl" or len(s[1]) != 1:
-            low.refuse("the four counter declarations after the push loop are not of the understood shape")
-    (t0, n0, i0), (t1, n1, i1), (t2, n2, i2), (t3, n3, i3) = (s[1][0] for s in d)
-    if (t0, t1, t2, t3) != ("usize", "ssize", "usize", "ssize") or i0 != ("call", ("id", "Atomic::increment"), [("id", "_pushedJobs")]) or i2 != ("id", "_threadCount"):
-        low.refuse("counter declarations: expected usize = Atomic::increment(_pushedJobs); ssize = …; usize = _threadCount; ssize = …")
-    low.env.params = {n0: ("pushedJobs", "nat"), "_processedJobs": ("processed", "nat")}
-    busy = low.pure(i1)
-    low.env.params = {n2: ("threadCount", "nat"), n1: ("busy", "int")}
-    idle = low.pure(i3)
-    if busy[1] != "int" or idle[1] != "int":
-        low.refuse("busy/idle are not signed")
-    low.env.params = {n2: ("threadCount", "nat"), n3: ("idle", "int"), "_idleResetTime": ("idleReset", "nat")}
-    clock = "(uint32)(Time::ticks()>>10)"
+    # ---- typed evaluation with wrap-around: value = (lean Int expression, 'u' | 's' | 'lit')
+    env = {"_minThreads": ("minT", "u"), "_maxThreads": ("maxT", "u")}
 
-    def ctext(c):
-        """condition -> (lean text without the clock conjunct, clock conjunct text or None)"""
-        conj = []
+    def conv(v, ty):
+        txt, t = v
+        if t == ty or t == "lit":
+            return txt
+        return f"(wrapU {txt})" if ty == "u" else f"(toS {txt})"
+
+    def ev(e):
+        if e[0] == "num":
+            return (str(e[1]), "lit")
+        if e[0] == "id":
+            if e[1] in env:
+                return env[e[1]]
+            raise KeyError(e[1])
+        if e[0] == "cast" and e[1] in ("ssize", "usize"):
+            v = ev(e[2])
+            return (conv(v, "s" if e[1] == "ssize" else "u"), "s" if e[1] == "ssize" else "u") if v[1] != "lit" else v
+        if e[0] == "bin" and e[1] in ("+", "-"):
+            a, b = ev(e[2]), ev(e[3])
+            ty = "u" if "u" in (a[1], b[1]) else ("s" if "s" in (a[1], b[1]) else "lit")
+            if ty == "lit":
+                refuse("arithmetic on two literals")
+            txt = f"({conv(a, ty)} {e[1]} {conv(b, ty)})"
+            return (f"(wrapU {txt})" if ty == "u" else f"(toS {txt})", ty)
+        raise KeyError(e[0])
+
+    def cmp_text(e):
+        """comparison of decision values -> lean Prop text (KeyError when it mentions anything else)"""
+        if e[0] == "not":
+            return f"(¬ {cmp_text(e[1])})"
+        if e[0] != "bin" or e[1] not in ("==", "!=", "<", ">", "<=", ">="):
+            raise KeyError(e[0])
+        a, b = ev(e[2]), ev(e[3])
+        ty = "u" if "u" in (a[1], b[1]) else "s"
+        op = {"==": "=", "!=": "≠", "<=": "≤", ">=": "≥"}.get(e[1], e[1])
+        return f"({conv(a, ty)} {op} {conv(b, ty)})"
+
+    CLOCK = ("cast", "uint32", ("bin", ">>", ("call", ("id", "Time::ticks"), []), ("num", 10)))
+    clock_conds = []
+
+    def conjuncts(c):
+        out = []
 
         def flat(e):
             if e[0] == "bin" and e[1] == "&&":
                 flat(e[2]); flat(e[3])
             else:
-                conj.append(e)
+                out.append(e)
         flat(c)
-        plain, clk = [], None
-        for j, e in enumerate(conj):
+        res = []
+        for e in out:
             if "Time::ticks" in repr(e):
-                if j != len(conj) - 1:
-                    low.refuse("the clock is read before the last conjunct of the retire condition")
-                # (uint32)(Time::ticks() >> 10) - _idleResetTime > 1
-                if not (e[0] == "bin" and e[2][0] == "bin" and e[2][1] == "-" and e[2][2] == ("cast", "uint32", ("bin", ">>", ("call", ("id", "Time::ticks"), []), ("num", 10)))):
-                    low.refuse("clock conjunct outside the understood form `(uint32)(Time::ticks() >> 10) - _idleResetTime <cmp> n`")
-                low.env.params["__now"] = ("now", "nat")
-                clk = low.pure(("bin", e[1], ("bin", "-", ("id", "__now"), e[2][3]), e[3]))[0]
+                if not (e[0] == "bin" and e[1] in ("<", ">", "<=", ">=") and e[2] == ("bin", "-", CLOCK, ("id", "_idleResetTime")) and e[3][0] == "num"):
+                    refuse("clock comparison outside the understood form `(uint32)(Time::ticks() >> 10) - _idleResetTime <cmp> n`")
+                op = {"<=": "≤", ">=": "≥"}.get(e[1], e[1])
+                txt = f"((now - idleReset) {op} {e[3][1]})"
+                if clock_conds and clock_conds[0] != txt:
+                    refuse("two different clock comparisons")
+                clock_conds[:] = [txt]
+                res.append(None)
             else:
-                plain.append(low.cond_text(e))
-        return (" ∧ ".join(plain) if plain else "True"), clk
+                res.append(cmp_text(e))       # KeyError -> not a decision condition
+        return res
 
-    # if (c1) <clock store> else { if (c2) { <clock store> if (c3) {…} } else if (c4 && clock) {…} }
-    p.eat("if"); p.eat("(")
-    c1 = p.expr(); p.eat(")")
-    b1 = opaque()
-    p.eat("else"); p.eat("{"); p.eat("if"); p.eat("(")
-    c2 = p.expr(); p.eat(")"); p.eat("{")
-    b2 = p.text_upto_semicolon(); p.skip_semicolon()
-    p.eat("if"); p.eat("(")
-    c3 = p.expr(); p.eat(")")
-    opaque()
-    p.eat("}"); p.eat("else"); p.eat("if"); p.eat("(")
-    c4 = p.expr(); p.eat(")")
-    opaque()
-    p.eat("}")
-    if p.peek() is not None:
-        low.refuse("statements after the if-chain of run()")
-    store = "_idleResetTime=" + clock
-    if b1.rstrip(";") != store or b2 != store:
-        low.refuse(f"the clock stores of the first two branches are not `_idleResetTime = {clock};`")
-    t1_, k1 = ctext(c1)
-    t2_, k2 = ctext(c2)
-    t3_, k3 = ctext(c3)
-    t4_, k4 = ctext(c4)
-    if k1 or k2 or k3 or not k4:
-        low.refuse("the clock is read in an unexpected condition")
+    # ---- the four declarations
+    d = [p.stmt() for _ in range(4)]
+    for s_ in d:
+        if s_[0] != "decl" or len(s_[1]) != 1 or s_[1][0][0] not in ("usize", "ssize") or s_[1][0][2] is None:
+            refuse("the four counter declarations after the push loop are not of the understood shape")
+    (t0, n0, i0), (t1, n1, i1), (t2, n2, i2), (t3, n3, i3) = (s_[1][0] for s_ in d)
+    if t0 != "usize" or t2 != "usize" or i0 != ("call", ("id", "Atomic::increment"), [("id", "_pushedJobs")]) or i2 != ("id", "_threadCount"):
+        refuse("counter declarations: expected usize = Atomic::increment(_pushedJobs); … ; usize = _threadCount; …")
+    lets = []
+    try:
+        env[n0] = ("pushedJobs", "u")
+        env["_processedJobs"] = ("processed", "u")
+        v1 = ev(i1)
+        lets.append(f"  let v1 : Int := {conv(v1, 'u' if t1 == 'usize' else 's')}")
+        del env["_processedJobs"]
+        env[n1] = ("v1", "u" if t1 == "usize" else "s")
+        env[n2] = ("threadCount", "u")
+        v3 = ev(i3)
+        lets.append(f"  let v3 : Int := {conv(v3, 'u' if t3 == 'usize' else 's')}")
+        env[n3] = ("v3", "u" if t3 == "usize" else "s")
+    except KeyError as e:
+        refuse(f"counter arithmetic mentions {e}")
+
+    # ---- statement splitter (tolerant: effect statements are kept as opaque token texts)
+    def split_stmt():
+        """-> ('if', cond_expr | None, cond_text, then, else) | ('block', [stmts]) | ('return',) | ('opaque', text)"""
+        tok = p.peek()
+        if tok == "{":
+            p.eat("{")
+            out = []
+            while p.peek() != "}":
+                out.append(split_stmt())
+            p.eat("}")
+            return ("block", out)
+        if tok == "return":
+            p.skip_semicolon()
+            return ("return",)
+        if tok == "if":
+            i0_ = p.i
+            p.eat("if"); p.eat("(")
+            j = p.i
+            depth = 1
+            while depth:
+                t = p.eat()
+                depth += (t == "(") - (t == ")")
+            ctoks = p.t[j:p.i - 1]
+            try:
+                cp = P(ctoks, what)
+                c = cp.expr()
+                if cp.peek() is not None:
+                    c = None
+            except Refuse:
+                c = None
+            a = split_stmt()
+            b = ("block", [])
+            if p.peek() == "else":
+                p.eat("else")
+                b = split_stmt()
+            return ("if", c, "".join(p.t[i0_:p.i]), a, b)
+        i0_ = p.i
+        if tok in ("for", "while"):
+            p.eat(); p.eat("(")
+            depth = 1
+            while depth:
+                t = p.eat()
+                depth += (t == "(") - (t == ")")
+            split_stmt()
+            return ("opaque", "".join(p.t[i0_:p.i]))
+        p.skip_semicolon()
+        return ("opaque", "".join(p.t[i0_:p.i]))
+
+    stmts = []
+    while p.peek() is not None:
+        stmts.append(split_stmt())
+    store = "_idleResetTime=(uint32)(Time::ticks()>>10);"
+
+    def effect(text, acts):
+        if text == store:
+            return acts + [".clockStore"]
+        if "_idleResetTime" in text or "Time::ticks" in text:
+            refuse(f"statement touching the idle clock outside the understood forms: {text[:60]}")
+        if "++_threadCount" in text or "_threadCount++" in text or "Atomic::increment(_threadCount)" in text:
+            return acts + [".spawn"]
+        if "--_threadCount" in text or "_threadCount--" in text or "Atomic::decrement(_threadCount)" in text:
+            return acts + [".retire"]
+        return acts
+
+    depth_guard = [0]
+
+    def ex(ss, acts, ind):
+        """symbolic execution of the statement list ss with the effects `acts` so far -> lean lines (a RunTree expression)"""
+        depth_guard[0] += 1
+        if depth_guard[0] > 400:
+            refuse("decision tree too large")
+        if not ss:
+            return [f"{ind}.done [{', '.join(acts)}]"]
+        s0, rest = ss[0], ss[1:]
+        if s0[0] == "return":
+            return [f"{ind}.done [{', '.join(acts)}]"]
+        if s0[0] == "block":
+            return ex(list(s0[1]) + rest, acts, ind)
+        if s0[0] == "opaque":
+            return ex(rest, effect(s0[1], acts), ind)
+        _, c, text, a, b = s0
+        cj = None
+        if c is not None:
+            try:
+                cj = conjuncts(c)
+            except KeyError:
+                cj = None
+        if cj is None:
+            if store in text or "Time::ticks" in text:
+                refuse("the idle clock is used under a condition that is not a decision over the counters")
+            return ex(rest, effect(text, acts), ind)
+        def paren(lines):
+            lines = list(lines)
+            k0 = len(lines[0]) - len(lines[0].lstrip())
+            lines[0] = lines[0][:k0] + "(" + lines[0][k0:]
+            lines[-1] = lines[-1] + ")"
+            return lines
+
+        def build(k, ind2):
+            if k == len(cj):
+                return ex([a] + rest, acts, ind2)
+            if cj[k] is None:       # the clock comparison: both outcomes are kept, the comparison is `runClockCond`
+                return [f"{ind2}.clock"] + paren(build(k + 1, ind2 + "  ")) + paren(ex([b] + rest, acts, ind2 + "  "))
+            return [f"{ind2}if {cj[k]} then"] + build(k + 1, ind2 + "  ") + [f"{ind2}else"] + ex([b] + rest, acts, ind2 + "  ")
+
+        return build(0, ind)
+
+    tree = ex(stmts, [], "  ")
+    if not clock_conds:
+        refuse("no clock comparison found in the decision")
     return "\n".join([
-        "/-- `busyThreads` / `idleThreads` of `run()` from the values it read (signed, as after the `(ssize)` casts) -/",
-        f"def runBusy (pushedJobs processed : Nat) : Int := {busy[0]}",
-        f"def runIdle (threadCount : Nat) (busy : Int) : Int := {idle[0]}",
-        "/-- the conditions of the if-chain, in source order: idle == 1 | idle <= 0 (then: threadCount < _maxThreads) | retire: the conjuncts",
-        "    before the clock is read, and the clock conjunct (`now` = `(uint32)(Time::ticks() >> 10)`) -/",
-        f"def runCondOne (idle : Int) : Prop := {t1_}",
-        f"def runCondSpawn (idle : Int) : Prop := {t2_}",
-        f"def runCondBelowMax (threadCount maxT : Nat) : Prop := {t3_}",
-        f"def runCondRetire (idle : Int) (threadCount minT : Nat) : Prop := {t4_}",
-        f"def runCondRetireClock (now idleReset : Nat) : Prop := {k4}",
-        "instance : DecidablePred runCondOne := fun _ => by unfold runCondOne; exact inferInstance",
-        "instance : DecidablePred runCondSpawn := fun _ => by unfold runCondSpawn; exact inferInstance",
-        "instance (a b : Nat) : Decidable (runCondBelowMax a b) := by unfold runCondBelowMax; exact inferInstance",
-        "instance (i : Int) (a b : Nat) : Decidable (runCondRetire i a b) := by unfold runCondRetire; exact inferInstance",
-        "instance (a b : Nat) : Decidable (runCondRetireClock a b) := by unfold runCondRetireClock; exact inferInstance"])
+        "/-- `usize` / `ssize` values as integers: reduction to the unsigned resp. signed 64-bit representative -/",
+        "def U64 : Int := 18446744073709551616",
+        "def S63 : Int := 9223372036854775808",
+        "def wrapU (x : Int) : Int := x % U64",
+        "def toS (x : Int) : Int := (x + S63) % U64 - S63",
+        "",
+        "/-- effects of the worker-count adjustment of `run()`, and its decision tree (`clock yes no`: the clock is read and compared) -/",
+        "inductive RunAct where",
+        "  | clockStore | spawn | retire",
+        "  deriving DecidableEq, Repr",
+        "inductive RunTree where",
+        "  | done (acts : List RunAct)",
+        "  | clock (yes no : RunTree)",
+        "  deriving DecidableEq, Repr",
+        "",
+        "/-- what `run()` decides from the values it read (`pushedJobs` = result of the increment, `processed`, `threadCount` = the two plain reads) -/",
+        "def runTree (pushedJobs processed threadCount minT maxT : Int) : RunTree :=",
+        *lets,
+        *tree,
+        "",
+        "/-- the clock comparison (`now` = `(uint32)(Time::ticks() >> 10)`, `idleReset` = `_idleResetTime`) -/",
+        f"def runClockCond (now idleReset : Nat) : Prop := {clock_conds[0]}",
+        "instance (a b : Nat) : Decidable (runClockCond a b) := by unfold runClockCond; exact inferInstance"])
 
 
 # ---- include/nstd/Future.hpp + Future<void>::set ----------------------------------------------------------------------------
